@@ -19,6 +19,7 @@ From Coq Require Import PrimFloat.
 From Coq Require Import ZArith List Bool Reals Lra Permutation.
 From BZ Require Import Base.Ops Gen.Utils Gen.Point Gen.Line Gen.Quad Proofs.C15 Proofs.C15float Base.FloatErr Proofs.C01float.
 Import ListNotations.
+From BZ Require Gen.Sample Gen.Lookup Proofs.C04 Proofs.C10flat Proofs.C15cubic.
 Open Scope R_scope.
 
 Theorem C15_line_tOfPoint_inverse :
@@ -84,6 +85,30 @@ Proof. exact line_tOfPoint_example. Qed.
 Theorem C15_line_tOfPoint_float_leaves_unit_interval :
   let q := Line_pointAtTime FOps w_line w_t in let tau := Line_tOfPoint FOps w_line q false in (ffinite tau /\ Rabs (FR tau - FR w_t) <= 14 * u * (M25 / extent w_line) /\ pt_near (Line_pointAtTime FOps w_line tau) q (30 * u * M25)) /\ FR tau < 0.
 Proof. exact line_tOfPoint_float_leaves_unit_interval. Qed.
+Theorem C15_Cubic_tOfPoint_range_best :
+  forall (fuel : nat) (c : seg4 R) (p : pt R) (t : R), Lookup.Cubic_tOfPoint ROps fuel c p = Some (Sample.Returns t) -> 0 <= t <= 1 /\ (exists ts : list R, Sample.Cubic_regularSampleTValue ROps fuel c 50 = Some (Sample.Returns ts) /\ Forall (fun s : R => 0 <= s <= 1) ts /\ Forall (fun s : R => Point_distanceFrom ROps (Cubic.Cubic_pointAtTime ROps c t) p <= Point_distanceFrom ROps (Cubic.Cubic_pointAtTime ROps c s) p) ts).
+Proof. exact @C15cubic.Cubic_tOfPoint_range_best. Qed.
+Theorem C15_cubic_length_0_const :
+  forall c : seg4 R, Cubic.Cubic_length ROps c = 0 -> forall t : R, Cubic.Cubic_pointAtTime ROps c t = c0 c.
+Proof. exact @C15cubic.cubic_length_0_const. Qed.
+Theorem C15_Cubic_tOfPoint_returns :
+  forall (f : nat) (c : seg4 R) (p : pt R), Cubic.Cubic_length ROps c < INR f -> (50 <= f)%nat -> exists t : R, Lookup.Cubic_tOfPoint ROps (S f) c p = Some (Sample.Returns t).
+Proof. exact @C15cubic.Cubic_tOfPoint_returns. Qed.
+Theorem C15_gen_regular_spacing :
+  forall (c : seg4 R) (m M : R), 0 < m -> (forall u : R, 0 <= u <= 1 -> m <= C04.cubic_speed c u <= M) -> M <= 2 * m -> forall (fuel : nat) (samples : R) (ts : list R), 0 < samples -> Sample.Cubic_regularSampleTValue ROps fuel c samples = Some (Sample.Returns ts) -> C10flat.fine_partition_01 (C10flat.cubic_arclen c) (Cubic.Cubic_length ROps c / samples + 2001 / 1000 + 4 / 10 ^ 4 * C10flat.cubic_arclen c 0 1) ts.
+Proof. exact @C15cubic.gen_regular_spacing. Qed.
+Theorem C15_Cubic_tOfPoint_on_curve :
+  forall (c : seg4 R) (m M : R), 0 < m -> (forall u : R, 0 <= u <= 1 -> m <= C04.cubic_speed c u <= M) -> M <= 2 * m -> forall (fuel : nat) (t0 t : R), 0 <= t0 <= 1 -> Lookup.Cubic_tOfPoint ROps fuel c (Cubic.Cubic_pointAtTime ROps c t0) = Some (Sample.Returns t) -> 0 <= t <= 1 /\ Point_distanceFrom ROps (Cubic.Cubic_pointAtTime ROps c t) (Cubic.Cubic_pointAtTime ROps c t0) <= (Cubic.Cubic_length ROps c / 50 + 2001 / 1000 + 4 / 10 ^ 4 * C10flat.cubic_arclen c 0 1) / 2.
+Proof. exact @C15cubic.Cubic_tOfPoint_on_curve. Qed.
+Theorem C15_Cubic_tOfPoint_on_curve_2pc :
+  forall (c : seg4 R) (m M : R), 0 < m -> (forall u : R, 0 <= u <= 1 -> m <= C04.cubic_speed c u <= M) -> M <= 2 * m -> forall (fuel : nat) (t0 t : R), 0 <= t0 <= 1 -> 103 <= C10flat.cubic_arclen c 0 1 -> Lookup.Cubic_tOfPoint ROps fuel c (Cubic.Cubic_pointAtTime ROps c t0) = Some (Sample.Returns t) -> Point_distanceFrom ROps (Cubic.Cubic_pointAtTime ROps c t) (Cubic.Cubic_pointAtTime ROps c t0) <= 2 / 100 * C10flat.cubic_arclen c 0 1 /\ Point_distanceFrom ROps (Cubic.Cubic_pointAtTime ROps c t) (Cubic.Cubic_pointAtTime ROps c t0) <= 2 / 100 * Cubic.Cubic_length ROps c.
+Proof. exact @C15cubic.Cubic_tOfPoint_on_curve_2pc. Qed.
+Theorem C15_Cubic_tOfPoint_on_curve_2pc_len :
+  forall (c : seg4 R) (m M : R), 0 < m -> (forall u : R, 0 <= u <= 1 -> m <= C04.cubic_speed c u <= M) -> M <= 2 * m -> forall (fuel : nat) (t0 t : R), 0 <= t0 <= 1 -> 103 <= Cubic.Cubic_length ROps c -> Lookup.Cubic_tOfPoint ROps fuel c (Cubic.Cubic_pointAtTime ROps c t0) = Some (Sample.Returns t) -> Point_distanceFrom ROps (Cubic.Cubic_pointAtTime ROps c t) (Cubic.Cubic_pointAtTime ROps c t0) <= 2 / 100 * Cubic.Cubic_length ROps c.
+Proof. exact @C15cubic.Cubic_tOfPoint_on_curve_2pc_len. Qed.
+Theorem C15_arch100_lookup :
+  forall t0 : R, 0 <= t0 <= 1 -> exists t : R, Lookup.Cubic_tOfPoint ROps 302 (C10flat.arch 100) (Cubic.Cubic_pointAtTime ROps (C10flat.arch 100) t0) = Some (Sample.Returns t) /\ 0 <= t <= 1 /\ Point_distanceFrom ROps (Cubic.Cubic_pointAtTime ROps (C10flat.arch 100) t) (Cubic.Cubic_pointAtTime ROps (C10flat.arch 100) t0) <= 4.
+Proof. exact @C15cubic.arch100_lookup. Qed.
 
 Print Assumptions C15_line_tOfPoint_inverse.
 Print Assumptions C15_line_tOfPoint_degenerate.
@@ -106,3 +131,11 @@ Print Assumptions C15_line_tOfPoint_float_range.
 Print Assumptions C15_line_tOfPoint_float_1e9.
 Print Assumptions C15_line_tOfPoint_example.
 Print Assumptions C15_line_tOfPoint_float_leaves_unit_interval.
+Print Assumptions C15_Cubic_tOfPoint_range_best.
+Print Assumptions C15_cubic_length_0_const.
+Print Assumptions C15_Cubic_tOfPoint_returns.
+Print Assumptions C15_gen_regular_spacing.
+Print Assumptions C15_Cubic_tOfPoint_on_curve.
+Print Assumptions C15_Cubic_tOfPoint_on_curve_2pc.
+Print Assumptions C15_Cubic_tOfPoint_on_curve_2pc_len.
+Print Assumptions C15_arch100_lookup.
